@@ -43,3 +43,20 @@ package sniffing
 //@   ensures strings.HasSuffix(h(), "]") ==> result == strings.Trim(h(), "[]")
 //@   ensures !strings.HasSuffix(h(), "]") && nth(net.SplitHostPort(h()), 2) == nil ==> result == nth(net.SplitHostPort(h()), 0)
 //@   ensures !strings.HasSuffix(h(), "]") && nth(net.SplitHostPort(h()), 2) != nil ==> result == strings.TrimSuffix(h(), ".")
+
+// C06 ("never alters payload"): whatever the outcome, the datagram bytes handed to sniffQuicBlock are
+// restored - the deferred closure puts back the first byte and the packet-number bytes that header
+// protection removal rewrites in place.
+//@ func sniffQuicBlock$1
+//@   requires header != nil && 4 <= boundary && boundary <= len(header) && len(rawPacketNumber) == 4 && rawPacketNumber.$base != header.$base
+//@   modifies elems(header)
+//@   ensures header[0] == firstByte || boundary - 4 == 0
+//@   ensures forall p int {header[p]} :: boundary - 4 <= p && p < boundary ==> header[p] == old(rawPacketNumber[p - (boundary - 4)])
+//@   ensures forall k int {header[k]} :: (0 < k && k < boundary - 4) || boundary <= k ==> header[k] == old(header[k])
+
+//@ func sniffQuicBlock
+//@   nonilcheck
+//@   dyncalls noeffect
+//@   trustframe
+//@   modifies s.quicPlaintexts, elems(cryptos), elems(s.quicPlaintexts)
+//@   ensures forall k int {buf[k]} :: 0 <= k && k < len(buf) ==> buf[k] == old(buf[k])
